@@ -94,6 +94,12 @@ def file_interface(col, cls, a, b, rec, tmp, r, subproc):
     try:
         if subproc:
             e = dict(os.environ)
+            if col.evaluations % 2 == 0:
+                # a process locale that is not UTF-8 (cron jobs, minimal containers, LANG=C ssh sessions): the files the
+                # two commands exchange must not depend on it
+                e.update({"LC_ALL": "C", "LANG": "C", "PYTHONUTF8": "0", "PYTHONCOERCECLOCALE": "0"})
+                e.pop("PYTHONIOENCODING", None)
+                col.count("file_interface_subprocess_under_C_locale")
             p1 = subprocess.run([sys.executable, "-m", "nbdime.nbdiffapp", fa, fb, "--out", fd], env=e, cwd=tmp,
                                 capture_output=True, timeout=120)
             rc1 = p1.returncode
